@@ -13,7 +13,7 @@ SPEC = dict(
           "about the very function the driver executes (findBonds), instantiated with the offset list and distances the translator "
           "extracts from bonds.py; obligations on those generated values (half-space completeness, no zero offset, box > longest "
           "bond, symmetric table) are re-proved by `decide` on every run. Correspondence compares ordered bond lists of the real "
-          "BondMaker with the model on random clouds, all 26 straddling directions, box-multiple coordinates and the test PDBs.",
+          "BondMaker with the model on random clouds, all 26 straddling directions, box-multiple coordinates and the test PDBs. The bonding of a whole conformation is part of the set-up pipeline model (Pipe.bondAll over Bonds.visited, with the disulfide flag) whose output is compared bond list by bond list, in order, with the real atoms on every program-level comparison; bridged_not_titratable (Props/Pipeline.lean) carries the flag to the group.",
     note="Theorem at exact integer milli-Angstrom arithmetic; the Float instance is compared with the code bit-for-bit in its "
          "decisions and the exact instance is compared too (pairs whose squared distance equals a threshold exactly are counted as "
          "near-threshold and skipped for the exact comparison). Elements of more than two letters are outside the key-splitting "
